@@ -2,13 +2,17 @@ import VaxisModel.Model.DynList
 import VaxisModel.Lemmas.DynList
 
 /-! Findings in vxfw/list `Dynamic` (replayed on the real code from /verif/corpus/C19/F119*.ops).
+All five are repaired in /repo; the model carries each repair as a Bool of `Facts`
+(cursorGuard, insertStops, clampTop, gapAbove, revealAbove), so the witnesses run the model of the
+code BEFORE the repair (`false`) and after it (`true`).
 
 * F119  (fixed, /repo 5b2dab9): cursor gutter indexes the children with a wrapped `cursor - top`.
-* F119b (recorded): items replaced by fewer than `top`, then an upward scroll: `Children[len-1]` of
-  an empty list.
-* F119c (recorded): children inserted above the top ignore a non-zero gap.
-* F119d (recorded): the builder's content shrinks below the scroll offset: the state is never re-anchored.
-* F119f (fixed): `insertChildren` left `scroll.top` one below the first inserted widget. -/
+* F119f (fixed, /repo aaed274): `insertChildren` left `scroll.top` one below the first inserted widget.
+* F119b (fixed, /repo 76bc81b): items replaced by fewer than `top`, then an upward scroll:
+  `Children[len-1]` of an empty list.
+* F119c (fixed, /repo c38045a): children inserted above the top ignored a non-zero gap.
+* F119d (fixed, /repo 14bcb60): the builder's content shrinks below the scroll offset: the selection
+  stayed above the viewport. -/
 namespace VaxisModel.Witness.F119
 open VaxisModel.Model.DynList VaxisModel.Lemmas.DynList
 
@@ -16,40 +20,57 @@ def panics {α} (r : Except Panic α) : Bool := match r with | .error _ => true 
 
 /-- F119: DrawCursor, three items, wheel down, two draws — without the guard the second panics. -/
 theorem gutter_panics_unguarded :
-    panics (run ⟨false, true⟩ ⟨0, true⟩ [3, 1, 2] init [.wheelDown, .draw 4 1, .draw 4 1]) = true := by decide
+    panics (run ⟨false, true, true, true, true⟩ ⟨0, true⟩ [3, 1, 2] init [.wheelDown, .draw 4 1, .draw 4 1]) = true := by decide
 
 /-- … and with the guard it does not. -/
 theorem gutter_ok_guarded :
-    panics (run ⟨true, true⟩ ⟨0, true⟩ [3, 1, 2] init [.wheelDown, .draw 4 1, .draw 4 1]) = false := by decide
+    panics (run Facts.fixed ⟨0, true⟩ [3, 1, 2] init [.wheelDown, .draw 4 1, .draw 4 1]) = false := by decide
 
-/-- F119b: the state reached by `SetCursor(3); Draw` on four items of height 1 in a 2-row viewport is
-    top = 2; with the items replaced by a single one, a pending scroll of −1 panics. -/
-theorem shrunk_scrollup_panics :
-    (match run ⟨true, true⟩ ⟨0, false⟩ [1, 1, 1, 1] init [.setCursor 3, .draw 4 2] with
-     | .ok s => panics (run ⟨true, true⟩ ⟨0, false⟩ [1] s [.pending (-1), .draw 4 2])
+/-- The F119b history: four items of height 1, `SetCursor(3); Draw` (top = 2), the items replaced by
+    a single one, a pending scroll of −1, `Draw`. -/
+def f119bOps : List HOp :=
+  [.op (.setCursor 3), .op (.draw 4 2), .items [1], .op (.pending (-1)), .op (.draw 4 2)]
+
+/-- F119b: without the walk back to an existing top widget the last draw panics … -/
+theorem shrunk_scrollup_panics_unfixed :
+    panics (runH ⟨true, true, false, true, true⟩ ⟨0, false⟩ [1, 1, 1, 1] init f119bOps) = true := by decide
+
+/-- … with it the list shows its only item at row 0 (top = 0, offset 0). -/
+theorem shrunk_scrollup_ok_fixed :
+    (match runH Facts.fixed ⟨0, false⟩ [1, 1, 1, 1] init f119bOps with
+     | .ok (_, s) => s.top == 0 && s.offset == 0
      | .error _ => false) = true := by decide
 
 /-- F119c: gap 1, two items of height 1, viewport 1: after moving to the second item and scrolling
-    back up by 2 the two children are drawn at rows 0 and 1 — no gap between them. -/
-theorem gap_ignored_on_scroll_up :
-    (match run ⟨true, true⟩ ⟨1, false⟩ [1, 1] init [.next, .draw 4 1, .pending (-2)] with
-     | .ok s => (match draw ⟨true, true⟩ ⟨1, false⟩ [1, 1] s 4 1 with
+    back up by 2, the code before the repair drew the two children at rows 0 and 1 — no gap. -/
+theorem gap_ignored_on_scroll_up_unfixed :
+    (match run ⟨true, true, true, false, true⟩ ⟨1, false⟩ [1, 1] init [.next, .draw 4 1, .pending (-2)] with
+     | .ok s => (match draw ⟨true, true, true, false, true⟩ ⟨1, false⟩ [1, 1] s 4 1 with
         | .ok (_, cs) => cs.map (fun c => (c.idx, c.row, c.height)) == [(0, 0, 1), (1, 1, 1)]
+        | .error _ => false)
+     | .error _ => false) = true := by decide
+
+/-- … the repaired code draws them at rows 0 and 2. -/
+theorem gap_kept_on_scroll_up_fixed :
+    (match run Facts.fixed ⟨1, false⟩ [1, 1] init [.next, .draw 4 1, .pending (-2)] with
+     | .ok s => (match draw Facts.fixed ⟨1, false⟩ [1, 1] s 4 1 with
+        | .ok (_, cs) => cs.map (fun c => (c.idx, c.row, c.height)) == [(0, 0, 1), (1, 2, 1)]
         | .error _ => false)
      | .error _ => false) = true := by decide
 
 /-- The state of the previous witness before its last draw. -/
 def s0 : St := { cursor := 1, top := 1, offset := 0, pending := -2, wantsCursor := false }
 
-theorem s0_reached : run ⟨true, true⟩ ⟨1, false⟩ [1, 1] init [.next, .draw 4 1, .pending (-2)] = .ok s0 := by rfl
+theorem s0_reached : run ⟨true, true, true, false, true⟩ ⟨1, false⟩ [1, 1] init [.next, .draw 4 1, .pending (-2)] = .ok s0 := by rfl
 
-theorem s0_draw : draw ⟨true, true⟩ ⟨1, false⟩ [1, 1] s0 4 1
+theorem s0_draw : draw ⟨true, true, true, false, true⟩ ⟨1, false⟩ [1, 1] s0 4 1
     = .ok ({ s0 with top := 0, pending := 0 }, [⟨0, 0, 1⟩, ⟨1, 1, 1⟩]) := by rfl
 
-/-- Hence the full layout statement (all gaps) is false of the code. -/
-theorem dyn_layout_full_fails :
+/-- Hence the layout statement for all gaps (`Props.C19.dyn_layout`) was false of the code before
+    repair F119c. -/
+theorem dyn_layout_fails_unfixed :
     ¬ ∀ (cfg : Cfg) (hs : List Nat) (s : St) (W H : Nat) (s' : St) (cs : List Child), s.top < U →
-      draw ⟨true, true⟩ cfg hs s W H = .ok (s', cs) → Contig cfg.gap cs ∧ Heights hs cs := by
+      draw ⟨true, true, true, false, true⟩ cfg hs s W H = .ok (s', cs) → Contig cfg.gap cs ∧ Heights hs cs := by
   intro h
   have := (h ⟨1, false⟩ [1, 1] s0 4 1 _ _ (by decide) s0_draw).1
   have h2 : (1 : Int) = 0 + ((1 : Nat) : Int) + 1 := this.1.2
@@ -57,35 +78,45 @@ theorem dyn_layout_full_fails :
 
 /-- F119f: heights 1,1,5,2.  `SetCursor(3); Draw(H=2); SetPendingScroll(-2); Draw(H=5); SetCursor(2);
     Draw(H=5)`: without the stop condition the top is left at item 1 with the offset (3) measured in
-    item 2, and the selected item 2 — which fits the viewport — is drawn at rows −2…2. -/
+    item 2, and the selected item 2 — which fits the viewport — is drawn at rows −2…2 (the wants-cursor
+    block of that time, `revealAbove = false`, did not move it). -/
 def f119fOps : List Op := [.setCursor 3, .draw 4 2, .pending (-2), .draw 4 5, .setCursor 2]
 
 theorem insert_top_off_by_one_hides_selection :
-    (match run ⟨true, false⟩ ⟨0, false⟩ [1, 1, 5, 2] init f119fOps with
-     | .ok s => (match draw ⟨true, false⟩ ⟨0, false⟩ [1, 1, 5, 2] s 4 5 with
+    (match run ⟨true, false, true, true, false⟩ ⟨0, false⟩ [1, 1, 5, 2] init f119fOps with
+     | .ok s => (match draw ⟨true, false, true, true, false⟩ ⟨0, false⟩ [1, 1, 5, 2] s 4 5 with
         | .ok (_, cs) => cs.map (fun c => (c.idx, c.row, c.height)) == [(1, -3, 1), (2, -2, 5), (3, 3, 2)]
         | .error _ => false)
      | .error _ => false) = true := by decide
 
 /-- … with it the selected item is drawn at rows 0…4. -/
 theorem insert_top_fixed_shows_selection :
-    (match run ⟨true, true⟩ ⟨0, false⟩ [1, 1, 5, 2] init f119fOps with
-     | .ok s => (match draw ⟨true, true⟩ ⟨0, false⟩ [1, 1, 5, 2] s 4 5 with
+    (match run Facts.fixed ⟨0, false⟩ [1, 1, 5, 2] init f119fOps with
+     | .ok s => (match draw Facts.fixed ⟨0, false⟩ [1, 1, 5, 2] s 4 5 with
         | .ok (_, cs) => cs.map (fun c => (c.idx, c.row, c.height)) == [(2, 0, 5)]
         | .error _ => false)
      | .error _ => false) = true := by decide
 
-/-- F119d (recorded): heights 1,1,1,9,1, `SetCursor(3); Draw(H=2)` leaves top = 3 with offset 7 inside
-    the 9-row item; the builder then returns heights 1,1,1,2,1 (item 3 shrank to 2 rows).  `NextItem;
-    Draw(H=2)` draws item 3 at row −7 and the selected item 4 at row −5: nothing covers row 0, the
+/-- F119d: heights 1,1,1,9,1, `SetCursor(3); Draw(H=2)` leaves top = 3 with offset 7 inside the 9-row
+    item; the builder then returns heights 1,1,1,2,1 (item 3 shrank to 2 rows).  `NextItem; Draw(H=2)`. -/
+def f119dOps : List HOp := [.op (.setCursor 3), .op (.draw 4 2), .items [1, 1, 1, 2, 1], .op .next]
+
+/-- Before the repair: item 3 at row −7 and the selected item 4 at row −5; nothing covers row 0, the
     state is never re-anchored and the selection stays invisible. -/
-theorem stale_offset_hides_selection :
-    (match run ⟨true, true⟩ ⟨0, false⟩ [1, 1, 1, 9, 1] init [.setCursor 3, .draw 4 2] with
-     | .ok s => (match run ⟨true, true⟩ ⟨0, false⟩ [1, 1, 1, 2, 1] s [.next] with
-        | .ok s1 => (match draw ⟨true, true⟩ ⟨0, false⟩ [1, 1, 1, 2, 1] s1 4 2 with
-          | .ok (s2, cs) => cs.map (fun c => (c.idx, c.row, c.height)) == [(3, -7, 2), (4, -5, 1)]
-              && s2.top == 3 && s2.offset == 7
-          | .error _ => false)
+theorem stale_offset_hides_selection_unfixed :
+    (match runH ⟨true, true, true, true, false⟩ ⟨0, false⟩ [1, 1, 1, 9, 1] init f119dOps with
+     | .ok (hs, s1) => (match draw ⟨true, true, true, true, false⟩ ⟨0, false⟩ hs s1 4 2 with
+        | .ok (s2, cs) => cs.map (fun c => (c.idx, c.row, c.height)) == [(3, -7, 2), (4, -5, 1)]
+            && s2.top == 3 && s2.offset == 7
+        | .error _ => false)
+     | .error _ => false) = true := by decide
+
+/-- After the repair: the selected item 4 is brought to row 0 and the state re-anchored on it. -/
+theorem stale_offset_shows_selection_fixed :
+    (match runH Facts.fixed ⟨0, false⟩ [1, 1, 1, 9, 1] init f119dOps with
+     | .ok (hs, s1) => (match draw Facts.fixed ⟨0, false⟩ hs s1 4 2 with
+        | .ok (s2, cs) => cs.map (fun c => (c.idx, c.row, c.height)) == [(3, -2, 2), (4, 0, 1)]
+            && s2.top == 4 && s2.offset == 0
         | .error _ => false)
      | .error _ => false) = true := by decide
 
